@@ -231,6 +231,10 @@ fn fold_atom(
     prefix: String,
     name: String,
 ) -> FoldResult<EnumTerm> {
+    // 除占位符外，原子词项的名称不能为空 | 与「枚举Narsese」解析器一致（其报错「词项名不能为空」）
+    if name.is_empty() && prefix != folder.atom.prefix_placeholder {
+        return Err(FoldError!("原子词项名称不能为空（前缀「{prefix}」）"));
+    }
     Ok(first! {
         (prefix.eq) => (_);
         // 词语 | ✅这里不用再害怕「空前缀」问题
